@@ -158,8 +158,19 @@ package xmpp
 //@   ensures[C08] firstErr == nil && typeof(tok) == xml.CharData ==> err == nil && handlerCalls == 0
 //@   ensures[C08] firstErr == nil && typeof(tok) != xml.CharData && typeof(tok) != xml.StartElement ==> err != nil && handlerCalls == 0
 //@   ensures[C08] handlerCalls <= 1
+//@   ghost ownStr string
+//@   ghost compared bool = false
 //@   callsite (mellium.im/xmpp/jid.JID).String#1
 //@     assert[C08] arg0.locallen + arg0.domainlen == len(arg0.data)
+//@     after: ownStr = ret0
+//@     after: compared = true
+// the stanza's own (unqualified, first) from attribute has been compared with
+// the session's bare address, and blanked if equal, before the handler sees it
+//@   callsite (xmpp.Handler).HandleXMPP#1
+//@     assert[C08] (start.Name.Local == "iq" || start.Name.Local == "message" || start.Name.Local == "presence") && (s.in.XMLNS == "" || start.Name.Space == s.in.XMLNS) ==> forall k int :: 0 <= k && k < len(start.Attr) && unq(start.Attr[k], "from") && (forall j int :: 0 <= j && j < k ==> !unq(start.Attr[j], "from")) ==> compared && (start.Attr[k].Value == "" || start.Attr[k].Value != ownStr)
+//@     assert[C07] rw.id == id && !rw.wroteResp && rw.level == 0
+//@     assert[C07] iqOk == iqName(start.Name)
+//@     after: handlerCalls = handlerCalls + 1
 // only replies (type result or error) are ever handed to a waiting request;
 // get/set requests always go to the handler
 //@   callsite mellium.im/xmlstream.Inner#1
@@ -169,10 +180,6 @@ package xmpp
 // the handler is not invoked for it
 //@     assert[C06] ok && has(s.sentStanzas, id) && (readerChan.stanzaName == start.Name || (readerChan.stanzaName.Space == "" && readerChan.stanzaName.Local == start.Name.Local))
 //@     assert[C06] handlerCalls == 0
-//@   callsite (xmpp.Handler).HandleXMPP#1
-//@     assert[C07] rw.id == id && !rw.wroteResp && rw.level == 0
-//@     assert[C07] iqOk == iqName(start.Name)
-//@     after: handlerCalls = handlerCalls + 1
 // the automatic reply is addressed to the sender named by the request's own
 // (unqualified) from attribute
 //@   callsite mellium.im/xmpp/jid.Parse#1
